@@ -200,7 +200,7 @@ class Gen:
         if r.chance(1, 2): self.main.append(f"op {r.choice(['close', 'stop'])} h{r.below(nsig)}")
         for _ in range(r.range(1, 3)):
             self.main.append("op run " + r.choice(["NOWAIT", "ONCE"]))
-            if r.chance(1, 3): self.main.append(f"op raise {r.choice([1, 2, 300])}")
+            if r.chance(1, 3): self.main.append(f"op raise {r.choice([1, 2, 300] if n > 30 else [1, 2, 3])}")   # big bursts only when the callbacks stop the handle
             if r.chance(1, 3): self.main.append(f"op close h{r.below(nsig)}")
         for i in range(len(self.kinds)):
             self.main.append(f"op close h{i}")
@@ -515,6 +515,7 @@ class Mon:
                 elif op == "alive" and nxt and ret != nxt["alive"]:
                     self.bad("C01", "alive-getter", "uv_loop_alive() differs from the observation", i)
                 elif op == "backend_timeout" and o0:
+                    self.top_cb_kind = cbstack[0][0] if cbstack else None
                     self.check_backend_timeout(ret, o0, H, Rq, T, i)
                 elif op in ("is_active", "has_ref", "is_closing") and o0 and hid in o0["hs"]:
                     want = o0["hs"][hid][{"is_active": 0, "has_ref": 1, "is_closing": 2}[op]] != "-"
@@ -809,6 +810,7 @@ class Mon:
         idle_now = any(H.get(h, {}).get("kind") == "idle" and f[0] == "A" for h, f in o["hs"].items())
         closing = any(d["closing"] and not d["dead"] and h not in (self.cp or ()) for h, d in H.items())
         zero = mode == "NOWAIT" or o["stop"] == 1 or idle_now or closing or (o["ah"] <= 0 and o["ar"] <= 0)
+        self.zero_only_idle = idle_now and not (mode == "NOWAIT" or o["stop"] == 1 or closing or (o["ah"] <= 0 and o["ar"] <= 0))
         lenient = any(q["owed"] and q["kind"] in ("udp", "connect") for q in Rq.values())
         if mode == "ONCE" and obs_start is not None:
             if any(H.get(h, {}).get("kind") == "idle" and f[0] == "A" for h, f in obs_start["hs"].items()):
@@ -828,7 +830,12 @@ class Mon:
             return
         if wqp is False and not zero and not lenient and ret != val:
             self.bad("C03", "backend-timeout-api", f"uv_backend_timeout()={ret} with nothing waiting to be applied; nearest timer says {val}", i)
-        if zero and ret != 0:
+        if zero and ret != 0 and self.zero_only_idle and ret == val and self.top_cb_kind == "idle":
+            # known deviation: uv__run_idle has detached the idle list; handles still waiting in the detached queue
+            # are not seen by uv__backend_timeout when it is called from inside an idle callback
+            self.bad("C03", "backend-timeout-inside-idle-phase", f"uv_backend_timeout()={ret} called from an idle callback while other idle "
+                     "handles (not yet called in this phase) are active: must be 0", i)
+        elif zero and ret != 0:
             self.bad("C03", "backend-timeout-api", f"uv_backend_timeout()={ret} while the loop must not block", i)
         elif not zero and ret not in (0, val) :
             self.bad("C03", "backend-timeout-api", f"uv_backend_timeout()={ret}, nearest timer says {val}", i)
@@ -1021,7 +1028,7 @@ def run_impl(ctx, exe, prog, tag):
     d = ctx.tmp / f"scr-{tag}"
     shutil.rmtree(d, ignore_errors=True)
     d.mkdir(parents=True)
-    rc, out, err = ctx.run(exe, args=[str(d)], text="\n".join(prog) + "\n", timeout=20,
+    rc, out, err = ctx.run(exe, args=[str(d)], text="\n".join(prog) + "\n", timeout=8,
                            env={"ASAN_OPTIONS": "detect_leaks=1:exitcode=99:abort_on_error=0", "UV_THREADPOOL_SIZE": "1"})
     shutil.rmtree(d, ignore_errors=True)
     return rc, out.splitlines(), err
